@@ -68,6 +68,8 @@ type Path struct {
 	curFn    []*ssa.Function
 	gwrites  []string
 	decStr   map[string]*Term // rt string input name -> its parsed 18-decimal raw value term
+	stress   *Term            // see unmodelled
+	printed  *Term            // what the code under test printed through client.Context.PrintString
 	pending  []decision // alternatives discovered on this path (pushed by explorer)
 	alts     [][]decision
 }
@@ -207,6 +209,15 @@ func (p *Path) where() string {
 // ends here with a candidate violation whose verdict is left to the native replay.
 type codecConfusion struct {
 	Site, Msg string
+}
+
+// unmodelled: the code under test left the fragment the encoding covers in a way that is itself
+// suspicious for the property (binary floating point on a path that must be exact). The path ends
+// with a candidate violation; Stress (optional) steers the model towards inputs on which the
+// unmodelled code is most likely to differ; the verdict is left to the native replay.
+type unmodelled struct {
+	Label, Site, Msg string
+	Stress           *Term
 }
 
 func (p *Path) goPanicf(format string, a ...interface{}) {
